@@ -124,6 +124,13 @@ func (c *Clock) NextTimer() (time.Duration, bool) {
 	return best.Sub(c.now), true
 }
 
+// Armed is the number of timers armed so far (NewTimerChan calls)
+func (c *Clock) Armed() int {
+	c.mu.Lock()
+	defer c.mu.Unlock()
+	return c.armed
+}
+
 func (c *Clock) PendingTimers() int {
 	c.mu.Lock()
 	defer c.mu.Unlock()
